@@ -36,7 +36,7 @@ func c03Compile(vpn bool, snaplen int, expr string) ([]pcap.BPFInstruction, erro
 
 // c03RunBPF executes a classic-BPF program (the loop-free programs libpcap emits for the
 // filters of this project) on a frame; an out-of-range load rejects the frame, as in the kernel.
-func c03RunBPF(prog []pcap.BPFInstruction, pkt []byte) bool {
+func c03RunBPFLen(prog []pcap.BPFInstruction, pkt []byte) uint32 {
 	var a, x uint32
 	n := uint32(len(pkt))
 	ld := func(off uint32, size uint32) (uint32, bool) {
@@ -56,32 +56,32 @@ func c03RunBPF(prog []pcap.BPFInstruction, pkt []byte) bool {
 		switch ins.Code {
 		case 0x20: // ld [k]
 			if a, ok = ld(k, 4); !ok {
-				return false
+				return 0
 			}
 		case 0x28: // ldh [k]
 			if a, ok = ld(k, 2); !ok {
-				return false
+				return 0
 			}
 		case 0x30: // ldb [k]
 			if a, ok = ld(k, 1); !ok {
-				return false
+				return 0
 			}
 		case 0x40: // ld [x+k]
 			if a, ok = ld(x+k, 4); !ok {
-				return false
+				return 0
 			}
 		case 0x48: // ldh [x+k]
 			if a, ok = ld(x+k, 2); !ok {
-				return false
+				return 0
 			}
 		case 0x50: // ldb [x+k]
 			if a, ok = ld(x+k, 1); !ok {
-				return false
+				return 0
 			}
 		case 0xb1: // ldxb 4*([k]&0xf)
 			v, ok := ld(k, 1)
 			if !ok {
-				return false
+				return 0
 			}
 			x = 4 * (v & 0xf)
 		case 0x00: // ld #k
@@ -117,15 +117,32 @@ func c03RunBPF(prog []pcap.BPFInstruction, pkt []byte) bool {
 		case 0x05: // ja
 			pc += int(k)
 		case 0x06: // ret #k
-			return k != 0
+			return k
 		case 0x16: // ret a
-			return a != 0
+			return a
 		default:
 			verifAssert(false, "cBPF opcode outside the interpreter's set")
-			return false
+			return 0
 		}
 	}
-	return false
+	return 0
+}
+
+// c03RunBPF: does the filter accept the frame at all?
+func c03RunBPF(prog []pcap.BPFInstruction, pkt []byte) bool { return c03RunBPFLen(prog, pkt) != 0 }
+
+// c03Capture is what the socket hands to the processor: the frame cut to the length the filter
+// returned (the snap length compiled into the program), nil when the filter drops it.
+func c03Capture(prog []pcap.BPFInstruction, pkt []byte) ([]byte, bool) {
+	acc := c03RunBPFLen(prog, pkt)
+	if acc == 0 {
+		return nil, false
+	}
+	n := int(verifConcretize(uint64(acc)))
+	if n < len(pkt) {
+		return pkt[:n:n], true
+	}
+	return pkt, true
 }
 
 // c03OptsOK: an option area (IPv4 or TCP) parses: kind 0 ends the list, kind 1 is one byte,
@@ -160,7 +177,12 @@ func c03WFIPv4(b []byte, vpn bool, maxIHL int) (off, ihl int) {
 	verifAssume(b[off]>>4 == 4)
 	h := b[off] & 0x0f
 	verifAssume(h >= 5 && int(h) <= maxIHL && off+int(h)*4 <= len(b))
+	verifAssume(int(h) >= verifParam("MINIHL", 5))
 	ihl = int(verifConcretize(uint64(h)))
+	if verifParam("RROPT", 0) == 1 && ihl > 5 {
+		// long-header obligations: one Record Route option filling the option area but its last byte
+		verifAssume(b[off+20] == 7 && int(b[off+21]) == ihl*4-21)
+	}
 	tot := len(b) - off
 	verifAssume(b[off+2] == byte(tot>>8) && b[off+3] == byte(tot))
 	verifAssume(b[off+6]&0x3f == 0 && b[off+7] == 0) // MF clear, fragment offset 0
